@@ -80,6 +80,9 @@ def draw_scenario(cs, cfg):
                                   for k in AC.ALL_KINDS + AC.C10_EXTRA_KINDS], "kind")
         sc["fkind"] = ["method", "pf", "sibling", "multisibling", "callable"][cs.weighted([4, 3, 2, 1, 2], "fkind")]
         sc["kind2"] = cs.draw(len(AC.ALL_KINDS), "kind2") if sc["fkind"] == "multisibling" else None
+        # a sibling function may take one more, non-differentiated parameter (a python number): the functional's
+        # parameter list then mixes tensors and non-tensors
+        sc["extra_param"] = sc["fkind"] in ("sibling", "multisibling") and cs.bool("extra_param", 1, 2)
     else:
         if sc["linalg_scenario"]:
             sc["kind"] = cs.weighted([4 if k is AC.LODense else 1 for k in AC.LO_KINDS], "lokind")
@@ -364,12 +367,13 @@ def get_fcn(env, mname, allow_multi=True):
     elif fk == "sibling" or (fk == "multisibling" and not allow_multi):
         @make_sibling(m)
         def pf(*args):
-            return m(*args)
+            return m(*[a_ for a_ in args if not isinstance(a_, float)])
     else:
         m2 = getattr(env.actors[1], mname)
 
         @make_sibling(m, m2)
         def pf(*args):
+            args = [a_ for a_ in args if not isinstance(a_, float)]
             return 0.5 * (m(*args) + m2(*args))
     env.pfs[key] = pf
     return pf
@@ -413,6 +417,12 @@ def run_functional(env, spec):
     F = spec["F"]
     n = env.n
     s = env.s
+
+    def PS(s_):
+        if env.sc.get("extra_param"):
+            SIM.count("reach.mixed_parameter_list")
+            return (s_, 0.125)
+        return (s_,)
     wts = torch.linspace(0.5, 1.5, n, dtype=AC.DT)
     kn = dict(spec.get("knobs") or {})
     if F in ("rootfinder", "reentrant"):
@@ -421,19 +431,19 @@ def run_functional(env, spec):
                 a_.inner_kind = spec.get("inner", "quad")
         f = get_fcn(env, method_name_of(spec))
         bck = {"method": spec["bck"]} if spec["bck"] else {}
-        y = xo.rootfinder(f, env.y0, params=(s,), method=spec["method"], bck_options=bck, maxiter=40, **kn)
+        y = xo.rootfinder(f, env.y0, params=PS(s), method=spec["method"], bck_options=bck, maxiter=40, **kn)
         return (y * wts).sum()
     if F == "equilibrium":
         f = get_fcn(env, "f_equil")
         bck = {"method": spec["bck"]} if spec["bck"] else {}
-        y = xo.equilibrium(f, env.y0, params=(s,), method=spec["method"], bck_options=bck, maxiter=40, **kn)
+        y = xo.equilibrium(f, env.y0, params=PS(s), method=spec["method"], bck_options=bck, maxiter=40, **kn)
         return (y * wts).sum()
     if F == "minimize":
         f = get_fcn(env, "f_min")
         bck = {"method": spec["bck"]} if spec["bck"] else {}
         opts = {"maxiter": 12, "step": 0.1} if spec["method"] in ("gd", "adam") else {"maxiter": 40}
         opts.update(kn)
-        y = xo.minimize(f, env.y0, params=(s,), method=spec["method"], bck_options=bck, **opts)
+        y = xo.minimize(f, env.y0, params=PS(s), method=spec["method"], bck_options=bck, **opts)
         return (y * wts).sum()
     if F == "solve_ivp":
         ts = torch.tensor([0.0, 0.2, 0.5], dtype=AC.DT)
@@ -445,10 +455,10 @@ def run_functional(env, spec):
         if spec["tuple"]:
             f = get_fcn(env, "f_ode_tuple", allow_multi=False)
             y0 = (env.y0, torch.ones(2, dtype=AC.DT))
-            yt = xi.solve_ivp(f, ts, y0, params=(s,), method=spec["method"], **opts)
+            yt = xi.solve_ivp(f, ts, y0, params=PS(s), method=spec["method"], **opts)
             return (yt[0][-1] * wts).sum() + yt[1].sum()
         f = get_fcn(env, "f_ode")
-        yt = xi.solve_ivp(f, ts, env.y0, params=(s,), method=spec["method"], **opts)
+        yt = xi.solve_ivp(f, ts, env.y0, params=PS(s), method=spec["method"], **opts)
         return (yt[-1] * wts).sum() + yt[1].sum()
     if F == "quad":
         f = get_fcn(env, "f_quad")
@@ -461,7 +471,7 @@ def run_functional(env, spec):
             xl_, xu_ = torch.tensor(0.0, dtype=AC.DT), torch.tensor(1.0, dtype=AC.DT).requires_grad_()
         else:
             xl_, xu_ = 0.0, float("inf")
-        y = xi.quad(f, xl_, xu_, params=(s,), n=kn.get("n", 4))
+        y = xi.quad(f, xl_, xu_, params=PS(s), n=kn.get("n", 4))
         return (y * wts).sum()
     if F == "mcquad":
         a = env.actors[0]
@@ -470,14 +480,14 @@ def run_functional(env, spec):
         m = spec["method"]
         if m == "mhcustom":
             x0 = env.y0
-            y = xi.mcquad(f, lp, x0, fparams=(s,), pparams=(env.s2,), method=m, nsamples=4, nburnout=3,
+            y = xi.mcquad(f, lp, x0, fparams=PS(s), pparams=(env.s2,), method=m, nsamples=4, nburnout=3,
                           custom_step=a.g_step)
         elif m == "mh":
-            y = xi.mcquad(f, lp, env.y0, fparams=(s,), pparams=(env.s2,), method=m, nsamples=5, nburnout=2,
+            y = xi.mcquad(f, lp, env.y0, fparams=PS(s), pparams=(env.s2,), method=m, nsamples=5, nburnout=2,
                           step_size=0.5)
         else:
             x0 = env.y0[:1]
-            y = xi.mcquad(f, lp, x0, fparams=(s,), pparams=(env.s2,), method=m, nsamples=5, lb=-2.0, ub=2.0)
+            y = xi.mcquad(f, lp, x0, fparams=PS(s), pparams=(env.s2,), method=m, nsamples=5, lb=-2.0, ub=2.0)
         return (y * wts).sum()
     if F == "jop_root":
         # the user's function is a product of a jac operator (a bound method of an EditableModule)
